@@ -1532,3 +1532,72 @@ fn replay(_ctx: &Ctx, check_name: &str, case: &Value) -> Result<(), Fail> {
         _ => Err(Fail::new("HARNESS|unknown-check", check_name.to_string())),
     }
 }
+
+// ---------------------------------------------------------------------------
+// Byte-level decoder for the libFuzzer target fz_rel (hand-written: the proptest strategy above
+// forks its RNG per element, which proptest's PassThrough RNG cannot sustain).
+
+/// bytes -> (world, op specs) -> history, through the same `build_history` as the strategy.
+pub fn history_from_bytes(data: &[u8]) -> Option<HistoryCase> {
+    let mut r = crate::fuzzdec::Reader::new(data);
+    let np = 2 + (r.u8()? % 7) as usize;
+    let mut prime_bits = vec![];
+    for _ in 0..np {
+        prime_bits.push(16 + (r.u8()? % 47) as u32);
+    }
+    let spec = WorldSpec {
+        prime_bits,
+        seed: r.u64(),
+        class: r.u8()? % 3,
+        fb_size: 8 * (1 + (r.u8()? % 8) as u32),
+        pool: 2 + (r.u8()? % 11) as usize,
+        maxlarge_mode: r.u8()? % 3,
+        lf: 2 + (r.u64() % 399) as u32,
+    };
+    let fin = r.u8()? % 4 == 0;
+    let u16_ = |r: &mut crate::fuzzdec::Reader| -> u16 { (r.u8().unwrap_or(0) as u16) | ((r.u8().unwrap_or(0) as u16) << 8) };
+    let seed = |r: &mut crate::fuzzdec::Reader| -> RelSeed {
+        let flags = r.u8().unwrap_or(0);
+        let k = (flags & 7).min(6) as usize;
+        let mut exps = vec![];
+        for _ in 0..k {
+            let i = u16_(r);
+            let e = match r.u8().unwrap_or(0) % 10 {
+                0..=5 => 1,
+                6 | 7 => 2,
+                8 => 3,
+                _ => 4 + (i % 17) as u8,
+            };
+            exps.push((i, e));
+        }
+        RelSeed {
+            exps,
+            sign: flags & 8 != 0,
+            omega: match (flags >> 4) & 3 {
+                0 => 0,
+                1 => u32::MAX,
+                _ => r.u64() as u32,
+            },
+            tail: flags & 64 != 0,
+            sq_large: None,
+            sign2: false,
+        }
+    };
+    let mut specs = vec![];
+    while r.rest() > 0 && specs.len() < 64 {
+        let op = r.u8()?;
+        specs.push(match op % 16 {
+            0..=2 => OpSpec::Complete(seed(&mut r)),
+            3..=6 => OpSpec::Single(u16_(&mut r), seed(&mut r)),
+            7..=11 => OpSpec::Double(u16_(&mut r), u16_(&mut r), op & 16 != 0, seed(&mut r)),
+            12 => OpSpec::Square(u16_(&mut r), seed(&mut r)),
+            13 => OpSpec::Dup(u16_(&mut r)),
+            14 => OpSpec::Trivial(u16_(&mut r), r.u64() as u32),
+            _ => OpSpec::Chain { start: u16_(&mut r), len: 2 + (op >> 4) % 6, root: r.u8().unwrap_or(0), order: r.u8().unwrap_or(0) % 3, seed: r.u64() },
+        });
+    }
+    if specs.is_empty() {
+        return None;
+    }
+    Some(build_history(&spec, &specs, fin))
+}
